@@ -449,6 +449,9 @@ class Prog:
             self.emit([rng.choice(["PRINT 1\\0", "X=32767:I%=X+1", 'A="s"', "NEXT", "RETURN", "PRINT P(11)", "READ A,A,A,A,A,A,A,A,A",
                                    "PRINT FNZ(1)", "DIM P(3)", "ERASE ZZ", 'PRINT ASC("")', "PRINT LEFT$(5,1)", "ON -1 GOTO " + end_label]
                                   + (["STOP"] if self.features.get("stop", True) else []))])
+        if rng.random() < 0.5:
+            # what the loops left in their variables -- also in those of loops that were abandoned and dropped by an outer NEXT
+            self.emit(["PRINT " + ";".join(LOOP_VARS)])
         enders = ["END", "END", "END", "END", 'PRINT "done":END'] + (["STOP"] if self.features.get("stop", True) else [])
         self.emit([rng.choice(enders)] if rng.random() < 0.93 else ["REM last"], label=end_label)
         self.lines.extend(self.subs)
